@@ -796,7 +796,9 @@ def canary(ctx, module, traces, accepted, cfg, mutate, what, prepare=lambda t: t
     tdir.mkdir(exist_ok=True)
     tf = tdir / f"canary_{uuid.uuid4().hex}.json"
     tf.write_text(json.dumps([prepare(bad)]))
-    r = core.run_tlc(module, cfg, ctx.tmp / "tlc", workers=1, timeout=600, env={"TRACE_FILE": str(tf)})
+    # canaries run concurrently and often share one cfg text: run_tlc names the cfg file after a hash of the text, so a
+    # unique comment keeps two threads from writing (and a TLC from reading) the same file at the same time
+    r = core.run_tlc(module, cfg + f"\\* canary {tf.stem}\n", ctx.tmp / "tlc", workers=1, timeout=600, env={"TRACE_FILE": str(tf)})
     ctx.cov["models"].append({"model": f"canary[{what}] (trace validation)", "traces": 1, "distinct_states": r.distinct,
                               "wall_s": round(r.wall, 2), "violated": r.violated})
     if r.errors or (not r.finished and not r.violated):
@@ -881,7 +883,7 @@ def mut_flags_frame(t):
         return None
     for e in t["ev"]:
         if e["ev"] == "frame" and e["step"] > 0:
-            e["mism"] = 10001      # just above FrameTolMultiple (10) x 1000 quanta
+            e["mism"] = 3001       # just above FrameTolMultiple (3) x 1000 quanta
             return t
     return None
 
